@@ -8,6 +8,7 @@ import (
 	"runtime"
 	"strings"
 	"sync"
+	"sync/atomic"
 	"syscall"
 	"testing"
 
@@ -85,6 +86,7 @@ func c08RaceReport() string {
 }
 
 var c08Fresh int
+var c08FreshPat int64
 
 type c08Result struct {
 	show string
@@ -117,6 +119,13 @@ func judgeC08(c *core.Case, cfg *core.Config) core.Verdict {
 		// shared environments must be read-only: no call log (Build(nil))
 		sample := b.Env.Build(nil)
 		opts := []expr.Option{expr.Env(sample), expr.Optimize(true)}
+		if b.Compiles > 0 && b.Picks[0]%2 == 0 {
+			// two Operator options for one operator, the first built from a slice with spare capacity: the option
+			// values are shared by all concurrent compilations
+			names := make([]string, 1, 4)
+			names[0] = "JoinSp"
+			opts = append(opts, expr.Operator("+", names...), expr.Operator("+", "SubF"))
+		}
 		// sequential reference on separately compiled copies
 		envS := b.Env.Build(nil)
 		envP := b.Env.Build(nil)
@@ -125,6 +134,12 @@ func judgeC08(c *core.Case, cfg *core.Config) core.Verdict {
 		var shared, refs []*vm.Program
 		for _, pr := range b.Progs {
 			o := []expr.Option{expr.Env(core.Env{}), expr.Optimize(pr.Opt)}
+			switch pr.Dir {
+			case "int64":
+				o = append(o, expr.AsInt64())
+			case "float64":
+				o = append(o, expr.AsFloat64())
+			}
 			p1, e1 := compile(pr.Src, o...)
 			p2, e2 := compile(pr.Src, o...)
 			if e1 != nil || e2 != nil {
@@ -199,22 +214,45 @@ func judgeC08(c *core.Case, cfg *core.Config) core.Verdict {
 				}
 			}(g)
 		}
+		compileJob := func(k int, concurrent bool) c08Result {
+			src := b.Progs[k%len(b.Progs)].Src
+			o := opts
+			if k%2 == 1 {
+				// non-strict compilation of a source that mentions names the environment lacks, through the
+				// very same Env option value the other compilations use
+				o = append(append([]expr.Option{}, opts...), expr.AllowUndefinedVariables())
+				src = "(" + src + ") == Missing" + fmt.Sprint(k) + " or Undefined" + fmt.Sprint(k%3) + " == nil"
+			}
+			if concurrent && k%3 == 0 {
+				// a constant pattern this process has never compiled (its value does not matter: S holds no such text)
+				n := atomic.AddInt64(&c08FreshPat, 1)
+				src = "(" + src + ") == nil or S matches \"^zq{" + fmt.Sprint(n%990+2) + "}" + fmt.Sprint(n) + "\""
+			}
+			p, err := compile(src, o...)
+			if err != nil {
+				return c08Result{err: "compile: " + err.Error()}
+			}
+			return c08Outcome(run(p, envs[k%len(envs)]))
+		}
+		// what each concurrent Compile+Run returns when it is alone (same option values, same environments)
+		wantC := make([]c08Result, b.Compiles)
+		for k := range wantC {
+			if k%3 != 0 {
+				wantC[k] = compileJob(k, false)
+			}
+		}
 		for k := 0; k < b.Compiles; k++ {
 			wg.Add(1)
 			go func(k int) {
 				defer wg.Done()
 				<-start
-				src := b.Progs[k%len(b.Progs)].Src
-				o := opts
-				if k%2 == 1 {
-					// non-strict compilation of a source that mentions names the environment lacks, through the
-					// very same Env option value the other compilations use
-					o = append(append([]expr.Option{}, opts...), expr.AllowUndefinedVariables())
-					src = "(" + src + ") == Missing" + fmt.Sprint(k) + " or Undefined" + fmt.Sprint(k%3) + " == nil"
-				}
-				p, err := compile(src, o...)
-				if err == nil {
-					_, _ = run(p, envs[k%len(envs)])
+				got := compileJob(k, true)
+				if k%3 != 0 && got != wantC[k] {
+					mu.Lock()
+					if mismatch == "" {
+						mismatch = fmt.Sprintf("concurrent Compile+Run %d of `%s` returns %s%s; alone it returns %s%s", k, b.Progs[k%len(b.Progs)].Src, got.show, got.err, wantC[k].show, wantC[k].err)
+					}
+					mu.Unlock()
 				}
 			}(k)
 		}
@@ -312,7 +350,14 @@ func genC08(t *rapid.T, cfg *core.Config) *core.Case {
 		} else {
 			src = rapid.SampledFrom(c08Sources).Draw(t, "src")
 		}
-		b.Progs = append(b.Progs, c07Prog{Src: src, Opt: rapid.IntRange(0, 3).Draw(t, "opt") != 0})
+		pr := c07Prog{Src: src, Opt: rapid.IntRange(0, 3).Draw(t, "opt") != 0}
+		if rapid.IntRange(0, 5).Draw(t, "dirprog") == 0 {
+			// a result directive over a dynamically typed result: the final conversion fails for a value that is no
+			// number (an instruction without a source position of its own)
+			pr.Src = rapid.SampledFrom([]string{"Any", "MA.k", "B ? I : S", "Var(I)", "Coalesce(nil, S)", "Tuple(I)[0]"}).Draw(t, "dirsrc")
+			pr.Dir = rapid.SampledFrom([]string{"int64", "float64"}).Draw(t, "dir")
+		}
+		b.Progs = append(b.Progs, pr)
 	}
 	b.Goroutines = rapid.IntRange(2, 12).Draw(t, "goroutines")
 	b.Runs = rapid.IntRange(1, 12).Draw(t, "runs")
